@@ -248,6 +248,15 @@ def filterCanary (br : BR) (ds : List Dep) (tpl : Option Template) : Option Dep 
 /-- `util.FilterActiveDeployment` -/
 def filterActive (ds : List Dep) : List Dep := ds.filter (fun d => !d.deleting)
 
+/-- the end of `BuildCanaryController`: filter, NotFound if nothing is left, `ParseWorkload` -/
+def pickCanary (br : BR) (s : S) (ds : List Dep) (tpl : Option Template) : S × Out Dep :=
+  match filterCanary br ds tpl with
+  | none => (s, .fail .notFound)
+  | some d =>
+    match d.replicas with
+    | none => (s, .fail .panic)      -- ParseWorkload(canaryObject)
+    | some _ => ({ s with canary := some d }, .ok d)
+
 /-- `realController.BuildCanaryController` -/
 def buildCanary (c : Cfg) (br : BR) (s : S) : S × Out Dep :=
   match s.canary with
@@ -264,12 +273,7 @@ def buildCanary (c : Cfg) (br : BR) (s : S) : S × Out Dep :=
         let tpl : Option Template := match r with
           | .ok st => some st.template
           | .fail _ => none
-        match filterCanary br (filterActive ds) tpl with
-        | none => (s, .fail .notFound)
-        | some d =>
-          match d.replicas with
-          | none => (s, .fail .panic)      -- ParseWorkload(canaryObject)
-          | some _ => ({ s with canary := some d }, .ok d)
+        pickCanary br s (filterActive ds) tpl
 
 /-- the pod template `create` gives the canary: `none` = assignment to an entry of a nil map -/
 def patchedTemplate (br : BR) (t : Template) : Option Template :=
